@@ -9,6 +9,7 @@ import (
 	"flag"
 	"fmt"
 	"go/ast"
+	"go/printer"
 	"go/parser"
 	"go/token"
 	"os"
@@ -19,7 +20,7 @@ import (
 )
 
 type item struct {
-	Kind  string   // cases | calls | strings | consts | conds
+	Kind  string   // cases | calls | strings | consts | conds | args | guards
 	File  string   // relative to repo root
 	Func  string   // function or Recv.Method
 	Name  string   // Lean def name
@@ -301,6 +302,15 @@ func exprString(e ast.Expr) string {
 	return fmt.Sprintf("%T", e)
 }
 
+// the source text of an expression (go/printer, one line)
+func fullExpr(n ast.Node) string {
+	var sb strings.Builder
+	if err := printer.Fprint(&sb, token.NewFileSet(), n); err != nil {
+		return exprString(n.(ast.Expr))
+	}
+	return strings.Join(strings.Fields(sb.String()), " ")
+}
+
 func run(repo string, it item) (string, error) {
 	c, err := openFile(repo, it.File)
 	if err != nil {
@@ -375,6 +385,29 @@ func run(repo string, it item) (string, error) {
 			clauses = append(clauses, "["+strings.Join(vals, ", ")+"]")
 		}
 		return fmt.Sprintf("def %s : List (List String) :=\n  [%s]\n", it.Name, strings.Join(clauses, ",\n   ")), nil
+	case "guards":
+		// the printed condition of every if statement and every index expression, in source order: the decision skeleton
+		// of a function together with the positions it reads and writes
+		var vals []string
+		ast.Inspect(body, func(n ast.Node) bool {
+			switch x := n.(type) {
+			case *ast.IfStmt:
+				vals = append(vals, leanString("if "+fullExpr(x.Cond)))
+			case *ast.IndexExpr:
+				vals = append(vals, leanString(fullExpr(x)))
+			case *ast.RangeStmt:
+				k, v := "_", "_"
+				if x.Key != nil {
+					k = fullExpr(x.Key)
+				}
+				if x.Value != nil {
+					v = fullExpr(x.Value)
+				}
+				vals = append(vals, leanString("range "+k+", "+v+" := "+fullExpr(x.X)))
+			}
+			return true
+		})
+		return fmt.Sprintf("def %s : List String :=\n  [%s]\n", it.Name, strings.Join(vals, ",\n   ")), nil
 	case "args":
 		// printed first arguments of every call to one of the callees in Names, in source order
 		var vals []string
